@@ -148,3 +148,15 @@ M("C15-R3-key-drops-args", "C15", [(E, "            if let Some(ref args) = self
 M("C15-R3-key-drops-op", "C15", [(E, "        if let Some(ref op) = self.arithmetic_op {\n            fmt.write_str(match op {\n                ArithmeticOp::Add => \" + \",\n                ArithmeticOp::Subtract => \" - \",\n                ArithmeticOp::Multiply => \" * \",\n                ArithmeticOp::Divide => \" / \",\n                ArithmeticOp::Modulo => \" % \",\n            })?;\n        }\n", "        fmt.write_str(\" ? \")?;\n")], ["key_arithmetic_op"])
 M("C15-R3-key-no-minus", "C15", [(E, "        if self.minus {\n            fmt.write_char('-')?;\n        }\n", "")], ["key_minus"])
 M("C15-R4-minus-field-ignored", "C15", [(S, "                    .get_field_value(entry.unwrap(), file_info, field)\n                    .with_sign(column_expr.minus);", "                    .get_field_value(entry.unwrap(), file_info, field);")], ["minus_field"])
+
+# ---------------------------------------------------------------- C16
+M("C16-R1-rtrim-arm-removed", "C16", [(F, "        Some(Function::RTrim) => {\n            Variant::from_string(&function_arg.trim_end().to_string())\n        }\n", "")], ["dispatch_RTrim"])
+M("C16-R2-ltrim-trim-end", "C16", [(F, "Variant::from_string(&function_arg.trim_start().to_string())", "Variant::from_string(&function_arg.trim_end().to_string())")], ["primitive_LTrim"])
+M("C16-R2-length-bytes", "C16", [(F, "Variant::from_int(function_arg.chars().count() as i64)", "Variant::from_int(function_arg.len() as i64)")], ["primitive_Length"])
+M("C16-R2-hex-octal", "C16", [(F, 'Ok(val) => Variant::from_string(&format!("{:x}", val)),', 'Ok(val) => Variant::from_string(&format!("{:o}", val)),')], ["primitive_Hex"])
+M("C16-R2-dow-monday", "C16", [(F, "date.0.weekday().number_from_sunday()", "date.0.weekday().number_from_monday()")], ["primitive_DayOfWeek"])
+M("C16-R2-least-max", "C16", [(F, "least = least.min(val);", "least = least.max(val);")], ["primitive_Least"])
+M("C16-R2-replace-swapped", "C16", [(F, "let from = &function_args[0];\n            let to = &function_args[1];", "let from = &function_args[1];\n            let to = &function_args[0];")], ["operand_Replace"])
+M("C16-R2-substr-zero-based", "C16", [(F, "false => *&function_args[0].parse::<i32>().unwrap() - 1,", "false => *&function_args[0].parse::<i32>().unwrap(),")], ["operand_Substring"])
+M("C16-R2-month-year", "C16", [(F, "Ok(date) => Variant::from_int(date.0.month() as i64),", "Ok(date) => Variant::from_int(date.0.year() as i64),")], ["primitive_Month"])
+M("C16-R4-arg-not-evaluated", "C16", [(S, "                    let arg_value =\n                        self.get_column_expr_value(entry, file_info, file_map, buffer_data, arg);\n                    function_args.push(arg_value.to_string());", "                    function_args.push(arg.to_string());")], ["composition"])
